@@ -181,15 +181,22 @@ def run(F, R):
         cs = [lib.norm(t.get("callee", "")) for _, t in dz.calls()]
         R.check("C20-R3", "deserialize", cs == ["serde::Deserializer::deserialize_str"], "deserialize_str(VersionVisitor)", "Deserialize does not request a str: %s" % cs)
     vs = lib.bodies(c, item="visit_str", impl_self="version::VersionVisitor")
-    if R.floor("C20-R3", "VersionVisitor::visit_str", len(vs), 1):
-        v = BV.of(vs[0])
-        fs = lib.has_call(v, "std::str::FromStr::from_str")
-        ok = bool(fs) and V in (fs[0][1].get("resolved") or "") and strip(v.trace_op(fs[0][1]["args"][0])) == ("param", 2)
-        ret = strip(v.trace_local(0))
-        ok = ok and ret[0] == "call" and ret[1].endswith("map_err") and strip(ret[2][0])[0] == "call"
-        R.check("C20-R3", "visit_str", ok, "visit_str = Version::from_str(v).map_err(custom)", "visit_str does not return FromStr::from_str(v)")
-        visitors = [b["item"] for b in c.bodies if (b.get("impl_self") or "") == "version::VersionVisitor" and b["item"].startswith("visit_")]
-        R.check("C20-R3", "only-visit_str", visitors == ["visit_str"], "the visitor accepts strings only", "visitor accepts other inputs: %s" % visitors)
+    if not vs:
+        other_v = sorted(b["item"] for b in c.bodies if (b.get("impl_self") or "") == "version::VersionVisitor" and (b.get("item") or "").startswith("visit_"))
+        if other_v:
+            # the visitor exists but does not take the general string case: serde hands `visit_str` a string it cannot lend
+            # (escapes, from_reader, from_value), and the default `visit_str` rejects it
+            R.violation("C20-R3", "visit_str", "VersionVisitor implements %s but not visit_str: version strings that the deserializer cannot borrow (escaped, streamed, from a Value) are rejected" % other_v)
+    if vs or not [b for b in c.bodies if (b.get("impl_self") or "") == "version::VersionVisitor"]:
+      if R.floor("C20-R3", "VersionVisitor::visit_str", len(vs), 1):
+          v = BV.of(vs[0])
+          fs = lib.has_call(v, "std::str::FromStr::from_str")
+          ok = bool(fs) and V in (fs[0][1].get("resolved") or "") and strip(v.trace_op(fs[0][1]["args"][0])) == ("param", 2)
+          ret = strip(v.trace_local(0))
+          ok = ok and ret[0] == "call" and ret[1].endswith("map_err") and strip(ret[2][0])[0] == "call"
+          R.check("C20-R3", "visit_str", ok, "visit_str = Version::from_str(v).map_err(custom)", "visit_str does not return FromStr::from_str(v)")
+          visitors = [b["item"] for b in c.bodies if (b.get("impl_self") or "") == "version::VersionVisitor" and b["item"].startswith("visit_")]
+          R.check("C20-R3", "only-visit_str", visitors == ["visit_str"], "the visitor accepts strings only", "visitor accepts other inputs: %s" % visitors)
     # ---------------------------------------------------------------- R4 ordering
     R.rule("C20-R4", "Eq/Ord for Version are the compiler-derived impls over the single field [u32; 4]")
     adt = c.adts.get(V)
